@@ -289,6 +289,10 @@ func slGen(r *Rng, depth int) (src string, rendered string) {
 			if r.Bool() {
 				w = wsRun(r)
 			}
+			if r.Chance(20) {
+				// vertical tab and form feed are whitespace between tags, too
+				w = r.Pick([]string{"\v", "\f", " \v ", "\n\v\t", "\f\r\n", "\v\v"})
+			}
 			s.WriteString(w)
 			o.WriteString(w)
 		case 5:
